@@ -68,6 +68,20 @@ func c07FaultScens(tier string) []e1Scen {
 			}
 		}
 	}
+	// ... and after a Write that failed because an init segment could not be built from the parameter sets it carried (the
+	// segment completed by that rotation has been finalised already)
+	for _, variant := range []string{"fmp4", "ll"} {
+		for _, tracks := range [][]string{{"h264"}, {"h265"}, {"av1"}, {"av1", "aac44"}, {"aac44", "h265"}} {
+			cfg := mcfg(variant, true, 3, tracks...)
+			if variant == "ll" {
+				cfg.SegCount = 7
+			}
+			word := []sym{{T: cfg.leading(), D: "q", K: "R"}, {T: cfg.leading(), D: "q", K: "n"}, {T: cfg.leading(), D: "q", K: "n"}, {T: cfg.leading(), D: "q", K: "n"}}
+			for _, fa := range []int{2, 3, 5} {
+				out = append(out, e1Scen{Prop: "C07", Cfg: cfg, Alpha: word, Mode: "paramfault", Len: 4 * (fa + 3), FaultAt: fa, Name: fmt.Sprintf("close-after-bad-parameter-sets-%d", fa)})
+			}
+		}
+	}
 	// ... and after a Write that failed in the middle of a part rotation (Low-Latency: the open part could not be written
 	// to storage), at several part indices, RAM and Directory storage
 	for _, disk := range []bool{false, true} {
@@ -283,6 +297,9 @@ var c07Epilogue = []string{"IDX", "PL", "PL0", "BR", "PH", "SEG", "PART", "INIT"
 func c07Check(st *msState, s *vsched.Sched, tr *vsched.Trace) (string, []vsched.Viol) {
 	var viols []vsched.Viol
 	add := func(sig, msg string) { viols = append(viols, vsched.Viol{Sig: sig, Msg: msg}) }
+	if tr.Livelock != "" {
+		add("livelock", tr.Livelock)
+	}
 	for _, p := range tr.Panics {
 		add("panic", p)
 	}
